@@ -689,3 +689,44 @@ M("c02-if-depth-not-restored", ["C02"], DSL_,
 M("c02-if-locals-renamed-benign", ["C02"], DSL_,
   '            _outer_case, self._statements = self._statements, {}\n            self.domain._depth += 1\n            yield\n            self._flush_ctrl()\n            if_data["tests"].append(cond)\n            if_data["bodies"].append(self._statements)\n            if_data["src_locs"].append(src_loc)\n        finally:\n            self.domain._depth -= 1\n            self._statements = _outer_case\n\n    @_guardedcontextmanager("Elif")',
   '            saved = self._statements\n            self._statements = {}\n            self.domain._depth += 1\n            yield\n            self._flush_ctrl()\n            if_data["tests"].append(cond)\n            if_data["bodies"].append(self._statements)\n            if_data["src_locs"].append(src_loc)\n        finally:\n            self.domain._depth -= 1\n            self._statements = saved\n\n    @_guardedcontextmanager("Elif")', "silent")
+M("c03-domain-lowerer-state-not-restored", ["C03"], XFRM,
+  '        outer_domains = self.domains\n        self.domains = fragment.domains\n        try:\n            return super().on_fragment(fragment)\n        finally:\n            self.domains = outer_domains',
+  '        self.domains = fragment.domains\n        return super().on_fragment(fragment)', "R-03g")
+M("c03-domain-lowerer-restores-wrong-value", ["C03"], XFRM,
+  '        finally:\n            self.domains = outer_domains', '        finally:\n            self.domains = fragment.domains', "R-03g")
+
+# ------------------------------------------------------------------------------------------------ rules added after round 3
+NIR_ = "amaranth/hdl/_nir.py"
+M("c02-lhsmask-switchvalue-whole", ["C02"], XFRM,
+  '            for (_, subvalue) in value.cases:\n                self.visit_value(subvalue, mask)', '            for (_, subvalue) in value.cases:\n                self.visit_value(subvalue, ~0)', "R-02f")
+M("c02-lhs-part-offset-from-next", ["C02"], PYRTL,
+  '            offset = f"({value.stride} * ({offset_mask:#x} & {self.rrhs(value.offset)}))"\n            self(value.value)',
+  '            offset = f"({value.stride} * ({offset_mask:#x} & {self.lrhs(value.offset)}))"\n            self(value.value)', "R-02j", count=1)
+M("c03-write-port-fixed-edge", ["C03", "C11"], IR,
+  '                clk_edge=cd.clk_edge,\n', '                clk_edge="pos",\n', "R-03h")
+M("c06-flipflop-no-arst-edge", ["C06"], NIR_,
+  '        yield (self.clk, self.src_loc)\n        yield (self.arst, self.src_loc)', '        yield (self.clk, self.src_loc)', "R-06d")
+M("c06-traverse-busy-after-recursion", ["C06"], NIR_,
+  '            if net in busy:\n                return Cycle(net)\n            busy.add(net)\n\n            cycle = None',
+  '            if net in busy:\n                return Cycle(net)\n\n            cycle = None', ["R-06d", "R-06a"])
+M("c07-ionet-dirs-module-only", ["C07"], IR,
+  '                while module_idx is not None:\n                    netlist.modules[module_idx].ionet_dir[net] = dir\n                    module_idx = netlist.modules[module_idx].parent',
+  '                netlist.modules[module_idx].ionet_dir[net] = dir', "R-07g")
+M("c07-iodirection-or-keeps-left", ["C07"], NIR_,
+  '        if self == other:\n            return self\n        else:\n            return IODirection.Bidir', '        return self', "R-07g")
+M("c07-use-net-lca-not-updated", ["C07"], IR,
+  '        modules[def_module].net_flow[net] = _nir.ModuleNetFlow.Internal\n        lca[net] = def_module', '        modules[def_module].net_flow[net] = _nir.ModuleNetFlow.Internal', "R-07g")
+M("c01-transformer-part-drops-stride", ["C01"], XFRM,
+  'return Part(self.on_value(value.value), self.on_value(value.offset),\n                    value.width, value.stride)',
+  'return Part(self.on_value(value.value), self.on_value(value.offset),\n                    value.width)', "R-01m")
+M("c01-transformer-concat-reversed", ["C01"], XFRM,
+  'return Concat(self.on_value(o) for o in value.parts)', 'return Concat(self.on_value(o) for o in reversed(value.parts))', "R-01m")
+M("c01-const-cast-slice-signed", ["C01"], AST,
+  'return Const(value.value >> obj.start, unsigned(obj.stop - obj.start))', 'return Const(value.value >> obj.start, obj.stop - obj.start)', "R-01m")
+M("c15-enum-member-abs-value", ["C15"], "amaranth/lib/enum.py",
+  'dict.__setitem__(namespace, member_name, member_const.value)', 'dict.__setitem__(namespace, member_name, abs(member_const.value))', "R-15f")
+M("c14-flipped-proxy-whole-array", ["C14"], "amaranth/lib/wiring.py",
+  '            return _flipped_array(getattr(self.__unflipped, name),\n                                  self.__unflipped.signature.members[name].dimensions)',
+  '            return flipped(getattr(self.__unflipped, name))', "R-14f")
+M("c14-flipped-array-skips-inner-dimensions", ["C14"], "amaranth/lib/wiring.py",
+  '    return [_flipped_array(item, rest_of_dimensions) for item in value]', '    return [flipped(item) for item in value]', "R-14f")
